@@ -109,8 +109,8 @@ class RecDict(dict):
 def shallow_state():
     """identity and size of every module-level mutable object the calls could reach"""
     import hl7apy
-    st = {'defaults': (hl7apy._DEFAULT_VERSION, hl7apy._DEFAULT_VALIDATION_LEVEL, repr(sorted(hl7apy._DEFAULT_ENCODING_CHARS.items())),
-                       repr(sorted(hl7apy._DEFAULT_ENCODING_CHARS_27.items()))),
+    st = {'defaults': (hl7apy.get_default_version(), hl7apy.get_default_validation_level(), repr(sorted(hl7apy.get_default_encoding_chars('2.5').items())),
+                       repr(sorted(hl7apy.get_default_encoding_chars('2.7').items()))),
           'supported': repr(sorted(hl7apy.SUPPORTED_LIBRARIES.items()))}
     for v in VERSIONS:
         lib = hl7apy.load_library(v)
@@ -247,6 +247,72 @@ def run(tier, seed):
                     mism.append((i, tid, r))
     finally:
         sys.setswitchinterval(old)
+    # ---- (3) long-lived worker threads and a change of the process-wide defaults by another thread: a call that relies on a default gives,
+    # in a worker that was already running, what the same call gives alone under the defaults now in force (seed C19-i: defaults snapshotted per thread)
+    import queue
+    from hl7apy.consts import VALIDATION_LEVEL as VL
+
+    def dcall(c):
+        from hl7apy.core import Message, Segment, Field
+        from hl7apy.parser import parse_segment
+        from hl7apy.factories import datatype_factory
+        try:
+            if c[0] == 'dseg':
+                x = parse_segment(c[1])
+                return '%s %s %s' % (x.version, x.validation_level, x.to_er7())
+            if c[0] == 'dmsg':
+                m = Message('ADT_A01')
+                return '%s %s %s' % (m.version, m.validation_level, m.msh.msh_2.to_er7())
+            if c[0] == 'dfac':
+                return type(datatype_factory(c[1], c[2])).__name__
+            if c[0] == 'dfld':
+                f = Field('PID_5')
+                f.value = c[1]
+                return '%s %d %s' % (f.version, len(f.children), f.to_er7())
+        except Exception as e:  # noqa
+            return 'exc ' + type(e).__name__
+    dcalls = [('dseg', 'PID|1||x^y'), ('dmsg',), ('dfac', 'SI', 'seven'), ('dfac', 'DT', '2020'), ('dfld', 'a^b$c'), ('dseg', 'PV1|1|I')]
+    saved = (hl7apy.get_default_version(), hl7apy.get_default_validation_level(), dict(hl7apy.get_default_encoding_chars('2.5')))
+    qs = [(queue.Queue(), queue.Queue()) for _ in range(4)]
+
+    def worker(qin, qout):
+        while True:
+            job = qin.get()
+            if job is None:
+                return
+            qout.put([dcall(c) for c in job])
+    wths = [threading.Thread(target=worker, args=q, daemon=True) for q in qs]
+    for t in wths:
+        t.start()
+    stale = []
+    try:
+        stages = [None, ('2.3', VL.STRICT, {'FIELD': '!', 'COMPONENT': '$', 'SUBCOMPONENT': '@', 'REPETITION': '~', 'ESCAPE': '%', 'GROUP': '\r', 'SEGMENT': '\r'}),
+                  ('2.6', VL.TOLERANT, dict(saved[2]))]
+        for stg in stages:
+            if stg is not None:
+                hl7apy.set_default_version(stg[0])
+                hl7apy.set_default_validation_level(stg[1])
+                hl7apy.set_default_encoding_chars(dict(stg[2]))
+            alone = [dcall(c) for c in dcalls]
+            for qin, qout in qs:
+                qin.put(dcalls)
+            for k, (qin, qout) in enumerate(qs):
+                got = qout.get(timeout=60)
+                chk.evals += len(dcalls)
+                for c, a1, g1 in zip(dcalls, alone, got):
+                    if a1 != g1:
+                        stale.append((c, a1, g1, stg[0] if stg else 'library defaults'))
+    finally:
+        hl7apy.set_default_version(saved[0])
+        hl7apy.set_default_validation_level(saved[1])
+        hl7apy.set_default_encoding_chars(dict(saved[2]))
+        for qin, qout in qs:
+            qin.put(None)
+    for c, a1, g1, stg in stale[:5]:
+        chk.fail(None, {'clause': 'threaded-result-equals-solo-result (call relying on a process-wide default, worker thread started before the default was set)',
+                        'call': list(c), 'solo': a1, 'in_a_long_lived_thread': g1, 'defaults_in_force': stg},
+                 {'api': 'set_default_version / _validation_level / _encoding_chars in the main thread, the call in a worker thread started earlier', 'call': list(c)})
+    chk.dist['long_lived_workers_after_defaults_change'] = len(dcalls) * len(qs) * 3
     for i, tid, r in mism[:20]:
         chk.fail(None, {'clause': 'threaded-result-equals-solo-result', 'call': str(calls[i])[:300], 'solo': seq[i][:200], 'threaded': r[:200]},
                  {'api': 'call run from %d threads with sys.setswitchinterval(1e-6)' % nthreads, 'call': calls[i]})
